@@ -1,0 +1,28 @@
+//go:build verif
+
+package plan
+
+// Contracts for the deductive verifier in /verif (comment-only file, build tag verif).
+
+// C09: the iteration order of a Go map must not show in a plan. inverseMap iterates two maps; its result is
+// order-independent because every value list is sorted before it is returned (together with: the lists are built
+// from the same multiset whatever the order - not decided here).
+//@ spec sortedInts(s []int) bool = forall a in 0..len(s) :: forall b in 0..len(s) :: a < b ==> s[a] <= s[b]
+//@ func inverseMap
+//@   ensures {every.value.list.is.sorted.so.map.iteration.order.cannot.show} forall k :: has(result, k) ==> sortedInts(result[k])
+//@   ensures {fresh.result} fresh(result)
+//@   modifies *
+//@   loop 0:
+//@     invariant fresh(inverse)
+//@     invariant forall k :: has(inverse, k) ==> (inverse[k] == nil || fresh(inverse[k])) && allocated(inverse[k]) && (inverse[k] == nil ==> len(inverse[k]) == 0)
+//@     invariant forall j :: forall k :: has(inverse, j) && has(inverse, k) && j != k && inverse[j] != nil ==> arr(inverse[j]) != arr(inverse[k])
+//@   loop 1:
+//@     invariant fresh(inverse)
+//@     invariant forall k :: has(inverse, k) ==> (inverse[k] == nil || fresh(inverse[k])) && allocated(inverse[k]) && (inverse[k] == nil ==> len(inverse[k]) == 0)
+//@     invariant forall j :: forall k :: has(inverse, j) && has(inverse, k) && j != k && inverse[j] != nil ==> arr(inverse[j]) != arr(inverse[k])
+//@   loop 2:
+//@     invariant fresh(inverse)
+//@     invariant forall k :: has(inverse, k) ==> (inverse[k] == nil || fresh(inverse[k])) && allocated(inverse[k]) && (inverse[k] == nil ==> len(inverse[k]) == 0)
+//@     invariant forall j :: forall k :: has(inverse, j) && has(inverse, k) && j != k && inverse[j] != nil ==> arr(inverse[j]) != arr(inverse[k])
+//@     invariant forall k :: visited(1, k) ==> has(inverse, k)
+//@     invariant forall k :: visited(1, k) ==> sortedInts(inverse[k])
